@@ -317,6 +317,8 @@ type LockWalk struct {
 	Classify func(c ssa.CallInstruction, st *LState) (lockOp, string)
 	// PathFn overrides the canonical naming of values (defaults to the lock table's lockPath).
 	PathFn func(v ssa.Value) string
+	// TrackFields: stores of pointers into fields of parameter-rooted objects re-bind the field's path
+	TrackFields bool
 	// OnEdge may refine the state carried along the edge b -> b.Succs[succ] (e.g. drop a resource on the
 	// edge on which its pointer is nil); returning false prunes the edge.
 	OnEdge    func(b *ssa.BasicBlock, succ int, st *LState) bool
@@ -410,7 +412,7 @@ func (lw *LockWalk) Run() {
 						keep = true
 					}
 				}
-				if !keep && !strings.HasPrefix(k, "c:") && !strings.HasPrefix(v, "const:") {
+				if !keep && !strings.HasPrefix(k, "c:") && !strings.HasPrefix(k, "p:") && !strings.HasPrefix(v, "const:") {
 					delete(st.alias, k)
 				}
 			}
@@ -439,6 +441,12 @@ func (lw *LockWalk) Run() {
 				issue("accumulates-in-loop", in, st.overflow, st)
 				dead = true
 				break
+			}
+			if lw.TrackFields {
+				// a pointer loaded from a re-bindable field denotes the object the field held at load time
+				if u, ok := in.(*ssa.UnOp); ok && trackedFieldLoad(u) {
+					st.alias["v:"+u.Name()] = st.root(lw.pathOf(u.X))
+				}
 			}
 			if lw.OnInstr != nil {
 				lw.OnInstr(in, st)
@@ -471,6 +479,18 @@ func (lw *LockWalk) Run() {
 					}
 					if src != k {
 						st.alias[k] = src
+					}
+				} else if fa, ok := x.Addr.(*ssa.FieldAddr); ok && lw.TrackFields {
+					// a pointer-typed field of an object reachable from a parameter is re-bound (iterator.curNode = next)
+					if _, isPtr := x.Val.Type().Underlying().(*types.Pointer); isPtr {
+						k := lw.pathOf(fa)
+						if strings.HasPrefix(k, "p:") {
+							delete(st.alias, k)
+							src := st.root(lw.pathOf(x.Val))
+							if src != k {
+								st.alias[k] = src
+							}
+						}
 					}
 				}
 			case *ssa.Go:
@@ -656,4 +676,32 @@ func hasPathPrefix(p, pre string) bool {
 		return true
 	}
 	return strings.HasPrefix(p, pre) && len(p) > len(pre) && (p[len(pre)] == '.' || p[len(pre)] == '#')
+}
+
+// trackedFieldLoad: a load of a pointer-typed field of an object reachable from a parameter.
+func trackedFieldLoad(u *ssa.UnOp) bool {
+	if u.Op != token.MUL {
+		return false
+	}
+	if _, isPtr := u.Type().Underlying().(*types.Pointer); !isPtr {
+		return false
+	}
+	fa, ok := u.X.(*ssa.FieldAddr)
+	if !ok {
+		return false
+	}
+	base := fa.X
+	for k := 0; k < 6; k++ {
+		switch b := base.(type) {
+		case *ssa.Parameter:
+			return true
+		case *ssa.FieldAddr:
+			base = b.X
+		case *ssa.UnOp:
+			base = b.X
+		default:
+			return false
+		}
+	}
+	return false
 }
